@@ -50,12 +50,16 @@ class Cs(asyncio.CancelledError):
     pass
 
 
-CLASSES = {"Ex": Exception, "Cn": asyncio.CancelledError, "Bx": BaseException, "E1": E1, "E1s": E1s, "E2": E2,
+class CE(asyncio.CancelledError, E1):
+    """a cancellation that is *also* an instance of a caught Exception class (multiple inheritance): never retried"""
+
+
+CLASSES = {"CE": CE, "Ex": Exception, "Cn": asyncio.CancelledError, "Bx": BaseException, "E1": E1, "E1s": E1s, "E2": E2,
            "BE": BE, "Cs": Cs}
 NAMES = {v: k for k, v in CLASSES.items()}
-KIND_CLS = {"e1": E1, "e1s": E1s, "e2": E2, "cn": asyncio.CancelledError, "cs": Cs, "be": BE, "xc": asyncio.CancelledError}
+KIND_CLS = {"ce": CE, "e1": E1, "e1s": E1s, "e2": E2, "cn": asyncio.CancelledError, "cs": Cs, "be": BE, "xc": asyncio.CancelledError}
 SIX = ["ok", "e1", "e1s", "e2", "cn", "be"]
-ALL_KINDS = SIX + ["cs", "xc"]
+ALL_KINDS = SIX + ["cs", "xc", "ce"]
 CATCH_EX = ["c:E1", "t:E1,E2", "s:E1", "s:E1s,E2", "t:Ex,Cn,Bx", "d"]
 DELAY_EX = ["n", "i2", "f3", "b1", "fn:2,1,0"]
 CATCH_RND = CATCH_EX + ["c:Ex", "c:E1s", "t:E2", "s:E1,E2,BE", "t:E1s,Cs", "c:Cn", "s:Bx", "t:E1,E1s"]
@@ -77,7 +81,7 @@ def parse(case: str):
         return None
     variant, lim, cat, dl = toks[:4]
     kinds = toks[4:]
-    if variant not in ("s", "a", "A") or any(k not in ALL_KINDS for k in kinds):
+    if variant not in ("s", "a", "A", "sp", "ap", "Ap") or any(k not in ALL_KINDS for k in kinds):
         return None
     bare = lim == "-"
     try:
@@ -113,14 +117,106 @@ SENT_A = object()
 SENT_K = object()
 
 
+def is_multi(case: str) -> bool:
+    return case.startswith(("M2 ", "R2 "))
+
+
+def split_multi(case: str) -> list[str]:
+    """`M2|R2 <limit> <catching> n <kinds of call 1> / <kinds of call 2>` -> the two single-call cases (variant A)"""
+    head, _, rest = case.partition(" ")
+    toks = rest.split()
+    cfg, kinds = toks[:3], " ".join(toks[3:])
+    return [" ".join(["A", *cfg, *part.split()]) for part in kinds.split("/")]
+
+
+def run_multi(case: str) -> str:
+    """two calls through ONE wrapper whose executions overlap: concurrently (M2: two tasks, the function suspends), or
+    nested (R2: the first invocation of call 1 awaits the wrapper again – call 2 – before it ends).  Each call has its own
+    outcome sequence and must behave as if it were alone."""
+    from haiway import retry
+
+    _silence()
+    subs = [parse(c) for c in split_multi(case)]
+    if len(subs) != 2 or any(x is None for x in subs) or subs[0][5] != ("none",):
+        return "bad-case"
+    _v, bare, limit, form, classes, _delay, _k = subs[0]
+    kinds = [x[6] for x in subs]
+    nested = case.startswith("R2 ")
+    kwargs = {"limit": limit}
+    if form == "c":
+        kwargs["catching"] = classes[0]
+    elif form == "t":
+        kwargs["catching"] = tuple(classes)
+    elif form == "s":
+        kwargs["catching"] = set(classes)
+    loop = vloop.new_loop()
+    try:
+        counts = [0, 0]
+        raised: list[dict[int, BaseException]] = [{}, {}]
+
+        async def fn(call: int):
+            i = counts[call]
+            counts[call] += 1
+            kind = kinds[call][i] if i < len(kinds[call]) else "ok"
+            if nested and call == 0 and i == 0:
+                try:
+                    results[1] = await one(1)
+                except BaseException:  # noqa: BLE001
+                    pass
+            else:
+                await asyncio.sleep(1)
+            if kind == "ok":
+                return ("val", i)
+            if kind == "xc":
+                kind = "cn"
+            exc = KIND_CLS[kind](f"call {call}.{i}")
+            raised[call][i] = exc
+            raise exc
+
+        try:
+            wrapped = retry(**kwargs)(fn)
+        except AssertionError:
+            return "assert-limit"
+        results: list = [None, None]
+
+        async def one(call: int) -> str:
+            try:
+                res = await wrapped(call)
+                return f"ok@{res[1]}" if isinstance(res, tuple) and len(res) == 2 and res[0] == "val" else "ok@?"
+            except BaseException as exc:  # noqa: BLE001
+                for i, e in raised[call].items():
+                    if e is exc:
+                        return f"{NAMES.get(type(exc), '?')}@{i}"
+                return f"foreign:{type(exc).__name__}"
+
+        async def main():
+            if nested:
+                results[0] = await one(0)
+            else:
+                r = await asyncio.gather(one(0), one(1))
+                results[0], results[1] = r
+
+        task = loop.create_task(main())
+        loop.quiesce(advance=True)
+        if not task.done():
+            return "HANG"
+        return " / ".join(f"calls={counts[c]} final={results[c]} gaps={','.join(['0'] * max(counts[c] - 1, 0))} fn=" for c in (0, 1))
+    finally:
+        vloop.close_loop(loop)
+
+
 def run_real(case: str) -> str:
     from haiway import retry
 
+    if is_multi(case):
+        return run_multi(case)
     _silence()
     p = parse(case)
     if p is None:
         return "bad-case"
     variant, bare, limit, form, classes, delay, kinds = p
+    partial_form = variant.endswith("p")
+    variant = variant[0]
     raised: dict[int, BaseException] = {}
     starts: list[float] = []
     ends: list[float] = []
@@ -185,6 +281,10 @@ def run_real(case: str) -> str:
                 i, kind = begin(args, kw)
                 return finish(i, kind)
 
+            if partial_form:
+                import functools
+
+                fn = functools.partial(fn)     # a callable without __name__ / __qualname__
             try:
                 wrapped = retry(fn) if bare else retry(**kwargs)(fn)
             except AssertionError:
@@ -212,6 +312,10 @@ def run_real(case: str) -> str:
                         raise
                 return finish(i, kind)
 
+            if partial_form:
+                import functools
+
+                fn = functools.partial(fn)
             try:
                 wrapped = retry(fn) if bare else retry(**kwargs)(fn)
             except AssertionError:
@@ -248,7 +352,7 @@ def run_real(case: str) -> str:
 
 
 def canon(case: str, out: str) -> str:
-    return out.split(" args=")[0]
+    return " / ".join(part.split(" args=")[0].strip() for part in out.split(" / "))
 
 
 # ----------------------------------------------------------------------------------------------
@@ -264,10 +368,20 @@ def _retryable(kind: str, classes) -> bool:
 
 
 def monitor(case: str, out: str) -> list[str]:
+    if is_multi(case):
+        parts = out.split(" / ")
+        subs = split_multi(case)
+        if len(parts) != len(subs):
+            return ["retry.no-observation:" + out[:20]]
+        fails = set()
+        for sub, part in zip(subs, parts):
+            fails |= {f.replace("retry.", "retry.overlapping-calls.") for f in monitor(sub, part)}
+        return sorted(fails)
     p = parse(case)
     if p is None:
         return []
     variant, bare, limit, form, classes, delay, kinds = p
+    variant = variant[0]
     if limit == 0:
         return []  # outside the property (limits >= 1); the assertion is compared with the model only
     if not out.startswith("calls="):
@@ -293,7 +407,7 @@ def monitor(case: str, out: str) -> list[str]:
             fails.append("retry.calls.too-few")
         elif n >= limit:
             fails.append("retry.calls.limit-exceeded")
-        elif kind_at(n) in ("cn", "cs", "xc", "be"):
+        elif kind_at(n) in ("cn", "cs", "xc", "be", "ce"):
             fails.append("retry.calls.retried-cancellation-or-base-exception")
         elif kind_at(n) == "ok":
             fails.append("retry.calls.called-again-after-success")
@@ -380,6 +494,13 @@ def corpus():
         # uncaught stops at once
         "s 3 c:E1 f2 e2 ok",
         "a 3 s:E1 f2 e1 e2 ok",
+        # a cancellation class that also inherits from a caught Exception class: never retried
+        "s 3 c:E1 n ce ok", "a 3 t:E1,E2 f1 e1 ce ok", "A 2 d n ce e1 ok", "s 2 c:CE n ce ok",
+        # the wrapped callable has no __name__ (functools.partial): retried all the same, the real outcome comes back
+        "sp 2 c:E1 n e1 e1 ok", "ap 2 d i1 e1 e2 ok", "Ap 1 c:E1 n e1 e1", "sp 1 c:E1 n e2",
+        # two calls through one wrapper whose executions overlap (two tasks / recursion): each has limit+1 attempts of its own
+        "M2 2 c:E1 n e1 e1 ok / e1 ok", "M2 1 d n e1 e1 / e1 ok", "R2 1 c:E1 n e1 ok / e1 e1 e1", "R2 2 d n ok / e1 e1 ok",
+        "M2 3 t:E1,E2 n e1 e2 e1 ok / e2 e2 e2 e2 e2",
         # cancellation / BaseException never retried, even when listed
         "s 3 t:Ex,Cn,Bx n cn ok",
         "a 3 t:Ex,Cn,Bx n e1 cn ok",
@@ -437,6 +558,7 @@ def generate(rng, tier):
                 yield " ".join([v, "1", c, d, *seq])
         for _ in range(2750):
             yield _random_case(rng)
+        yield from _extra_cases(rng, 400)
         return
     cfgs = _configs()
     k = rng.randrange(len(cfgs))
@@ -450,6 +572,23 @@ def generate(rng, tier):
                 k += 11
     for _ in range(120000):
         yield _random_case(rng)
+    yield from _extra_cases(rng, 20000)
+
+
+def _extra_cases(rng, n: int):
+    """callables without __name__, the cancellation-and-Exception class, overlapping calls through one wrapper"""
+    kinds = SIX + ["ce", "ce"]
+    for _ in range(n):
+        limit = rng.randint(1, 3)
+        cat = rng.choice(CATCH_RND + ["c:CE", "t:E1,CE"])
+        r = rng.random()
+        if r < 0.35:
+            seq = [rng.choice(kinds) for _ in range(rng.randint(0, limit + 2))]
+            yield " ".join([rng.choice(["sp", "ap", "Ap", "s", "a"]), str(limit), cat, rng.choice(DELAY_RND), *seq])
+        else:
+            a = [rng.choice(["e1", "e1", "e1s", "e2", "ok"]) for _ in range(rng.randint(0, limit + 2))]
+            b = [rng.choice(["e1", "e1", "e1s", "e2", "ok"]) for _ in range(rng.randint(0, limit + 2))]
+            yield " ".join([rng.choice(["M2", "R2"]), str(limit), cat, "n", *a, "/", *b])
 
 
 def mutate(rng, case: str) -> str:
